@@ -1,4 +1,5 @@
-(* C18 driver.  dg.enc SID chunk.chunk... steps   with steps = comma list of cK (take <=K of chunk) / aK (advance K)
+(* C18 driver.  dg.tx SID chunk.chunk = send_datagram on a real connection; dg.rx HEX = read_datagram on a real connection.
+   dg.enc SID chunk.chunk... steps   with steps = comma list of cK (take <=K of chunk) / aK (advance K)
    prints the transcript: for each step "r<remaining>:<bytes taken or skipped count>", then the rest drained by whole chunks *)
 let chunks_of s = if s = "-" then [] else List.map bytes_of_hex (String.split_on_char '.' s)
 let take n l = List.filteri (fun i _ -> i < n) l
@@ -98,6 +99,28 @@ let rec handle ws = match ws with
       let s = (match rfc_dg_decode bs with
         | Some (s, p) -> "ok " ^ string_of_n s ^ " " ^ hex_of_bytes p
         | None -> "err " ^ string_of_n h3_DATAGRAM_ERROR_rfc) in
+      m ^ " | " ^ s
+  | ["dg.tx"; sid; pl] ->
+      (* DatagramSender::send_datagram on a real connection: the bytes handed to the transport *)
+      let sid = n_of_string sid in
+      let p = chunks_of pl in
+      let m = (match dg_tx sid p with
+        | Ok bs -> "ok " ^ hex_of_bytes bs
+        | Err _ -> "err"
+        | Panic _ -> "panic") in
+      let s = if snd (N.div_eucl sid four) <> N0 then "panic" else "ok " ^ hex_of_bytes (rfc_dg_bytes sid (List.concat p)) in
+      m ^ " | " ^ s
+  | ["dg.rxw"; h] -> handle ["dg.rx"; h]
+  | ["dg.rx"; h] ->
+      (* DatagramReader::read_datagram on a real connection: result, and the code the connection was closed with *)
+      let bs = bytes_of_hex h in
+      let m = (match dg_rx bs with
+        | RxDatagram (s, p) -> "ok " ^ string_of_n s ^ " " ^ hex_of_bytes p ^ " close -"
+        | RxConnError (c, k) -> "err " ^ string_of_n c ^ " close " ^ string_of_n k
+        | RxPanic _ -> "panic") in
+      let s = (match rfc_dg_decode bs with
+        | Some (s, p) -> "ok " ^ string_of_n s ^ " " ^ hex_of_bytes p ^ " close -"
+        | None -> "err " ^ string_of_n h3_DATAGRAM_ERROR_rfc ^ " close " ^ string_of_n h3_DATAGRAM_ERROR_rfc) in
       m ^ " | " ^ s
   | _ -> "driver-error unknown-case"
 let () = run_lines handle
